@@ -221,6 +221,17 @@ static std::string exec_case(const Args &a) {
         std::vector<uint64_t> in = null ? std::vector<uint64_t>() : parse_units(a.get("in"), a.get("kind") == "to" ? 8 : width_of(a.get("src")));
         return run_conv(a.get("kind"), a.get("src"), a.get("dst"), a.get("route"), a.get("m"), a.num("sub", 1) != 0, in, null);
     }
+    if (a.op == "reval") {
+        // substitute_invalid output fed back through check_validity of the target encoding
+        std::string src = a.get("src"), dst = a.get("dst");
+        std::vector<uint64_t> in = parse_units(a.get("in"), width_of(src));
+        std::string first = run_conv(dst == "u8" ? "from" : "free", src, dst, dst == "u8" && src == "u8" ? "set_buf" : (dst == "u8" ? "ctor_buf" : "ptr"), "s", true, in, false);
+        if (first.rfind("ok ", 0) != 0) return "first:" + first.substr(0, first.find(' '));
+        std::vector<uint64_t> mid = parse_units(first.substr(3), width_of(dst));
+        std::string second = dst == "u8" ? run_conv("from", "u8", "u8", "ctor_buf", "c", true, mid, false)
+                                         : run_conv("free", dst, "u8", "ptr", "c", true, mid, false);
+        return second.rfind("ok", 0) == 0 ? "valid" : second == "throw unicode_error" ? "invalid" : "second:" + second;
+    }
     if (a.op == "blk.conv") {
         std::string src = a.get("src"), kind = a.get("kind");
         std::string inenc = kind == "to" ? "u8" : src;
@@ -408,6 +419,9 @@ static void gen(Emitter &em, const Options &opt) {
                     }
                 }
                 if (src == "u8" && u.size() <= 4) emit_to_routes(em, u);   // ST::string holding arbitrary bytes (assume_valid) converted out
+                if (src != "w" && u.size() <= 4 && c02)
+                    for (const char *dst : {"u8", "u16", "u32"}) if (src != dst || src == "u8")
+                        em.emit("reval src=" + src + " dst=" + dst + " in=" + hex_u64s(u, width_of(src)));
             });
         };
         sweep("u8", a8, l8, false);
